@@ -25,7 +25,7 @@ ShL1 == << E("l1", "link", "L2Path") >>
 TopShapes == {ShN0, ShN1, ShN2, ShS1}
 HostedShapes == {ShC1, ShSv, ShI1, ShL1}
 
-All(kind, v) == [p \in Vocab[kind] |-> IF v \in Tokens(p) THEN v ELSE "v1"]
+All(kind, v) == [p \in Vocab[kind] |-> IF v \in Tokens(p) THEN v ELSE "v1"]      \* v is "v1" or "v2" here
 Other(v) == IF v = "v1" THEN "v2" ELSE "v1"
 With(sh, f(_)) == [i \in DOMAIN sh |-> [path |-> sh[i].path, kind |-> sh[i].kind, type |-> sh[i].type, props |-> f(i)]]
 Assignments(sh) ==
@@ -49,16 +49,16 @@ PropSeeds ==
 RECURSIVE RunAll(_, _, _)
 RunAll(T, ops, i) == IF i > Len(ops) THEN T ELSE RunAll(Apply(T, ops[i]).st, ops, i + 1)
 
-FocusProps(kind) == IF Focus THEN Vocab[kind] \cap {"image_ref", "image_type", "stitch_node", "location", "site", "capacities",
+FocusProps(kind) == IF Focus THEN Vocab[kind] \cap {"image_ref", "image_type", "stitch_node", "location", "site", "details", "capacities",
                                                      "capacity_allocations", "label_allocations", "labels", "peer_labels", "layer"}
                     ELSE Vocab[kind]
 FocusPaths(g) == IF Focus THEN {"n2", "n2/c1", "n2/c1/s1", "n2/c1/s1/p1", "n2/c1/s1/p1/u1", "s9", "l1"} \cap DOMAIN g ELSE DOMAIN g
 Several == { [image_ref |-> "v1", image_type |-> "v1"], [image_ref |-> "v2", image_type |-> "v1", site |-> "v2"],
-             [capacities |-> "v2", labels |-> "v2", stitch_node |-> "v1"], [layer |-> "v2", technology |-> "v1"],
+             [capacities |-> "v2", labels |-> "v2", stitch_node |-> "v1"], [details |-> "v0", stitch_node |-> "v0"], [site |-> "v0", details |-> "v2"], [layer |-> "v2", technology |-> "v1"],
              [peer_labels |-> "v2", labels |-> "v1"], [capacity_allocations |-> "v2", label_allocations |-> "v2"] }
 PropOps(S) ==
     UNION {
-      {[op |-> "SetProp", path |-> q, p |-> p, v |-> v] : p \in FocusProps(S.g[q].kind), v \in {"v1", "v2"}}
+      {[op |-> "SetProp", path |-> q, p |-> p, v |-> v] : p \in FocusProps(S.g[q].kind), v \in {"v0", "v1", "v2"}}
       \cup {[op |-> o, path |-> q, p |-> p] : p \in FocusProps(S.g[q].kind), o \in {"UnsetProp", "SetNone", "GetProp"}}
       \cup {[op |-> "SetProps", path |-> q, asg |-> a] : a \in {b \in Several : DOMAIN b \subseteq Vocab[S.g[q].kind]}}
       : q \in FocusPaths(S.g)}
